@@ -67,8 +67,18 @@ def run_runner_case(case: dict[str, Any]) -> dict[str, Any]:
         await anyio.sleep(ending.get("d", 1) * TICK)
         raise EXN[ending["e"]]()
 
+    async def guard_service() -> None:
+        # safety net of the harness: an application that is still running after a very long (virtual) time is
+        # stopped by a signal, and says so
+        await anyio.sleep(10.0 ** 6)
+        log.append(["stoppedByGuard"])
+        signal.raise_signal(signal.SIGTERM)
+        await anyio.sleep_forever()
+
     async def do_start(idx: int) -> None:
         comp = case["comps"][idx]
+        if idx == 0:
+            await start_service_task(guard_service, "guard")
         regs = comp["regs"]
         half = len(regs) // 2 if ending.get("mid") else len(regs)
 
